@@ -232,7 +232,7 @@ def main(argv=None):
             "bounded": getattr(mod, "BOUNDED", []),
             "samples": samples + (extra_res.get("samples", []) if extra_res else []),
             "slowest_functions_ms": sorted(((v[0], k) for k, v in fn_times.items()), reverse=True)[:8],
-            "exhaustive": False,
+            "exhaustive": bool(getattr(mod, "EXHAUSTIVE", False)),
         },
         "assumptions": GLOBAL_ASSUMPTIONS + getattr(mod, "ASSUMPTIONS", []),
         "wall_s": round(wall, 2), "violations": len({x["obligation"] for x in new_fail}),
